@@ -184,3 +184,140 @@ Proof.
     + destruct ik; try reflexivity. destruct inx; reflexivity.
     + destruct inx as [|m]; [reflexivity|apply wf_set_ctext_deep].
 Qed.
+
+(* ---------- accessor flags: function parameters and filter operands carry none ---------- *)
+From JP Require Import AccDefs.
+
+Section AccAppend.
+  Variable x : node.
+  Hypothesis Hx : acc_clean x = true.
+  Definition AA_node (n : node) : Prop := acc_clean n = true -> acc_clean (append_deep n x) = true.
+  Definition AA_onode (o : onode) : Prop := match o with OSome n => AA_node n | ONone => True end.
+  Definition AA_nodes (ids : nodes) : Prop := acc_clean_ids ids = true -> acc_clean_ids (append_ids ids x) = true.
+  Definition AA_kind (k : kind) : Prop := match k with KMulti ids _ uq => AA_nodes ids /\ AA_onode uq | _ => True end.
+  Lemma acc_append_all :
+    (forall n, AA_node n) /\ (forall o, AA_onode o) /\ (forall k, AA_kind k) /\ (forall ns, AA_nodes ns) /\
+    (forall q : query, True) /\ (forall cp : cparam, True) /\ (forall p : pquery, True).
+  Proof.
+    apply tree_mutind; try (intros; exact I).
+    - intros k IHk b next IHn H. rewrite append_deep_eq. cbn [acc_clean] in *.
+      apply andb_true_iff in H. destruct H as [Hk Hn]. apply andb_true_iff. split.
+      + destruct k as [| |key| |ids aw uq|mr lr|subs|q|f|f param]; try exact Hk.
+        destruct IHk as [IHids IHuq]. apply andb_true_iff in Hk. destruct Hk as [H1 H2].
+        apply andb_true_iff. split; [apply IHids; exact H1|]. destruct uq as [|u]; [exact H2|apply IHuq; exact H2].
+      + destruct next as [|m]; [exact Hx|apply IHn; exact Hn].
+    - intros n IH. exact IH.
+    - intros ids IHids aw uq IHuq. split; assumption.
+    - intros _. reflexivity.
+    - intros id IHid rest IHrest H. cbn [acc_clean_ids append_ids] in *. apply andb_true_iff in H. destruct H as [H1 H2].
+      apply andb_true_iff. split; [apply IHid; exact H1|apply IHrest; exact H2].
+  Qed.
+End AccAppend.
+Lemma acc_clean_append_deep n x : acc_clean n = true -> acc_clean x = true -> acc_clean (append_deep n x) = true.
+Proof. intros Hn Hx. exact (proj1 (acc_append_all x Hx) n Hn). Qed.
+
+Definition AC_node (n : node) : Prop := acc_clean n = true -> all_false (clear_acc n) = true.
+Definition AC_onode (o : onode) : Prop := match o with OSome n => AC_node n | ONone => True end.
+Definition AC_nodes (ids : nodes) : Prop := acc_clean_ids ids = true -> all_false_ids (clear_ids ids) = true.
+Definition AC_kind (k : kind) : Prop := match k with KMulti ids _ uq => AC_nodes ids /\ AC_onode uq | _ => True end.
+Lemma all_false_clear_all :
+  (forall n, AC_node n) /\ (forall o, AC_onode o) /\ (forall k, AC_kind k) /\ (forall ns, AC_nodes ns) /\
+  (forall q : query, True) /\ (forall cp : cparam, True) /\ (forall p : pquery, True).
+Proof.
+  apply tree_mutind; try (intros; exact I).
+  - intros k IHk b next IHn H. rewrite clear_acc_eq. cbn [acc_clean all_false] in *.
+    apply andb_true_iff in H. destruct H as [Hk Hn].
+    apply andb_true_iff. split; [apply andb_true_iff; split; [reflexivity|]|].
+    + destruct k as [| |key| |ids aw uq|mr lr|subs|q|f|f param]; try exact Hk; try reflexivity.
+      destruct IHk as [IHids IHuq]. apply andb_true_iff in Hk. destruct Hk as [H1 H2].
+      apply andb_true_iff. split; [apply IHids; exact H1|]. destruct uq as [|u]; [reflexivity|apply IHuq; exact H2].
+    + destruct next as [|m]; [reflexivity|apply IHn; exact Hn].
+  - intros n IH. exact IH.
+  - intros ids IHids aw uq IHuq. split; assumption.
+  - intros _. reflexivity.
+  - intros id IHid rest IHrest H. cbn [acc_clean_ids clear_ids all_false_ids] in *. apply andb_true_iff in H. destruct H as [H1 H2].
+    apply andb_true_iff. split; [apply IHid; exact H1|apply IHrest; exact H2].
+Qed.
+Lemma all_false_clear_acc n : acc_clean n = true -> all_false (clear_acc n) = true.
+Proof. exact (proj1 all_false_clear_all n). Qed.
+
+Definition FC_node (n : node) : Prop := all_false n = true -> acc_clean n = true.
+Definition FC_onode (o : onode) : Prop := match o with OSome n => FC_node n | ONone => True end.
+Definition FC_nodes (ids : nodes) : Prop := all_false_ids ids = true -> acc_clean_ids ids = true.
+Definition FC_kind (k : kind) : Prop := match k with KMulti ids _ uq => FC_nodes ids /\ FC_onode uq | _ => True end.
+Lemma all_false_clean_all :
+  (forall n, FC_node n) /\ (forall o, FC_onode o) /\ (forall k, FC_kind k) /\ (forall ns, FC_nodes ns) /\
+  (forall q : query, True) /\ (forall cp : cparam, True) /\ (forall p : pquery, True).
+Proof.
+  apply tree_mutind; try (intros; exact I).
+  - intros k IHk b next IHn H. cbn [acc_clean all_false] in *.
+    apply andb_true_iff in H. destruct H as [H Hn]. apply andb_true_iff in H. destruct H as [_ Hk].
+    apply andb_true_iff. split.
+    + destruct k as [| |key| |ids aw uq|mr lr|subs|q|f|f param]; try exact Hk.
+      destruct IHk as [IHids IHuq]. apply andb_true_iff in Hk. destruct Hk as [H1 H2].
+      apply andb_true_iff. split; [apply IHids; exact H1|]. destruct uq as [|u]; [reflexivity|apply IHuq; exact H2].
+    + destruct next as [|m]; [reflexivity|apply IHn; exact Hn].
+  - intros n IH. exact IH.
+  - intros ids IHids aw uq IHuq. split; assumption.
+  - intros _. reflexivity.
+  - intros id IHid rest IHrest H. cbn [acc_clean_ids all_false_ids] in *. apply andb_true_iff in H. destruct H as [H1 H2].
+    apply andb_true_iff. split; [apply IHid; exact H1|apply IHrest; exact H2].
+Qed.
+Lemma all_false_acc_clean n : all_false n = true -> acc_clean n = true.
+Proof. exact (proj1 all_false_clean_all n). Qed.
+
+Lemma acc_clean_set_node_vg n : acc_clean (set_node_vg n) = acc_clean n.
+Proof. destruct n as [k b nx]. reflexivity. Qed.
+Lemma acc_clean_update_vg n : acc_clean (update_vg n) = acc_clean n.
+Proof. unfold update_vg. destruct (chain_vg n); [apply acc_clean_set_node_vg|reflexivity]. Qed.
+Lemma all_false_set_node_vg n : all_false (set_node_vg n) = all_false n.
+Proof. destruct n as [k b nx]. reflexivity. Qed.
+
+Fixpoint acc_clean_delete_root (n : node) : acc_clean n = true -> acc_clean (delete_root n) = true.
+Proof.
+  destruct n as [k b next]. intros H.
+  destruct k as [| |key| |ids aw uq|mr lr|subs|q|f|f param]; try exact H.
+  - cbn [delete_root]. destruct next as [|nx]; [exact H|]. cbn [acc_clean andb] in H.
+    destruct (vgroup b); [rewrite acc_clean_set_node_vg|]; exact H.
+  - cbn [delete_root]. destruct next as [|nx]; [exact H|]. cbn [acc_clean andb] in H.
+    destruct (vgroup b); [rewrite acc_clean_set_node_vg|]; exact H.
+  - cbn [delete_root acc_clean] in *. apply andb_true_iff in H. destruct H as [H1 H2].
+    apply andb_true_iff. split; [|exact H2].
+    (* the parameter of an aggregate is all_false; deleting its root keeps that *)
+    revert H1. generalize param. fix IH 1. intros p Hp. destruct p as [pk pb pnx].
+    destruct pk as [| |key| |ids aw uq|mr lr|subs|q|f2|f2 param2]; try exact Hp.
+    + cbn [delete_root]. destruct pnx as [|nx]; [exact Hp|]. cbn [all_false] in Hp.
+      apply andb_true_iff in Hp. destruct Hp as [_ Hp]. destruct (vgroup pb); [rewrite all_false_set_node_vg|]; exact Hp.
+    + cbn [delete_root]. destruct pnx as [|nx]; [exact Hp|]. cbn [all_false] in Hp.
+      apply andb_true_iff in Hp. destruct Hp as [_ Hp]. destruct (vgroup pb); [rewrite all_false_set_node_vg|]; exact Hp.
+    + cbn [delete_root all_false] in *. apply andb_true_iff in Hp. destruct Hp as [Hp Hn]. apply andb_true_iff in Hp. destruct Hp as [Ha Hq].
+      rewrite Ha, Hn, (IH param2 Hq). reflexivity.
+Qed.
+
+Fixpoint all_false_set_ctext_deep (n : node) (p : string) {struct n} : all_false (set_ctext_deep n p) = all_false n
+with all_false_ctext_ids (ids : nodes) (ct p : string) {struct ids} : all_false_ids (ctext_ids ids ct p) = all_false_ids ids.
+Proof.
+  - destruct n as [k b next]. cbn [set_ctext_deep]. cbn [all_false]. f_equal; [f_equal|].
+    + destruct k as [| |key| |ids aw uq|mr lr|subs|q|f|f param]; try reflexivity.
+      * f_equal; [apply all_false_ctext_ids|].
+        destruct uq as [|[uk ub unx]]; [reflexivity|]. cbn [all_false].
+        f_equal. destruct unx as [|m]; [reflexivity|apply all_false_set_ctext_deep].
+      * apply all_false_set_ctext_deep.
+    + destruct next as [|m]; [reflexivity|apply all_false_set_ctext_deep].
+  - destruct ids as [|[ik ib inx] r]; [reflexivity|]. cbn [ctext_ids all_false_ids]. f_equal; [|apply all_false_ctext_ids].
+    cbn [all_false]. f_equal. destruct inx as [|m]; [reflexivity|apply all_false_set_ctext_deep].
+Qed.
+
+Fixpoint acc_clean_set_ctext_deep (n : node) (p : string) {struct n} : acc_clean (set_ctext_deep n p) = acc_clean n
+with acc_clean_ctext_ids (ids : nodes) (ct p : string) {struct ids} : acc_clean_ids (ctext_ids ids ct p) = acc_clean_ids ids.
+Proof.
+  - destruct n as [k b next]. cbn [set_ctext_deep]. cbn [acc_clean]. f_equal.
+    + destruct k as [| |key| |ids aw uq|mr lr|subs|q|f|f param]; try reflexivity.
+      * f_equal; [apply acc_clean_ctext_ids|].
+        destruct uq as [|[uk ub unx]]; [reflexivity|]. cbn [acc_clean].
+        f_equal. destruct unx as [|m]; [reflexivity|apply acc_clean_set_ctext_deep].
+      * apply all_false_set_ctext_deep.
+    + destruct next as [|m]; [reflexivity|apply acc_clean_set_ctext_deep].
+  - destruct ids as [|[ik ib inx] r]; [reflexivity|]. cbn [ctext_ids acc_clean_ids]. f_equal; [|apply acc_clean_ctext_ids].
+    cbn [acc_clean]. f_equal. destruct inx as [|m]; [reflexivity|apply acc_clean_set_ctext_deep].
+Qed.
